@@ -25,10 +25,23 @@ fn hex(b: &[u8]) -> String {
     b.iter().map(|x| format!("{x:02x}")).collect()
 }
 
+/// values of this many bytes or more are logged as (length, 64-bit FNV-1a hash, first and last 16 bytes): the
+/// same function renders what is written and what is read back
+const LONG: usize = 4096;
+fn long(t: &str, b: &[u8]) -> Value {
+    let mut h: u64 = 0xcbf29ce484222325;
+    for x in b {
+        h ^= *x as u64;
+        h = h.wrapping_mul(0x100000001b3);
+    }
+    json!({"t":t,"len":b.len(),"h":format!("{h:016x}"),"head":hex(&b[..16.min(b.len())]),"tail":hex(&b[b.len().saturating_sub(16)..])})
+}
+
 /// canonical rendering of a value: uniform records {"t":type,"v":...}; numbers as strings
 fn render(v: &OwnedValue) -> Value {
     match v {
         OwnedValue::Null => json!({"t":"null","v":""}),
+        OwnedValue::Str(s) if s.len() >= LONG => long("str", s.as_bytes()),
         OwnedValue::Str(s) => json!({"t":"str","v":s}),
         OwnedValue::PreTokStr(p) => json!({"t":"pretok","v":p.text,
             "toks":p.tokens.iter().map(|t| json!([t.offset_from, t.offset_to, t.position, t.text, t.position_length])).collect::<Vec<_>>()}),
@@ -38,6 +51,7 @@ fn render(v: &OwnedValue) -> Value {
         OwnedValue::Bool(x) => json!({"t":"bool","v":x.to_string()}),
         OwnedValue::Date(d) => json!({"t":"date","v":d.into_timestamp_nanos().to_string()}),
         OwnedValue::Facet(f) => json!({"t":"facet","v":f.to_path_string()}),
+        OwnedValue::Bytes(b) if b.len() >= LONG => long("bytes", b),
         OwnedValue::Bytes(b) => json!({"t":"bytes","v":hex(b)}),
         OwnedValue::IpAddr(a) => json!({"t":"ip","v":format!("{:032x}", u128::from(*a))}),
         OwnedValue::Array(a) => json!({"t":"arr","v":a.iter().map(render).collect::<Vec<_>>()}),
@@ -221,6 +235,27 @@ fn doc_of(spec: &Value, id: u64) -> Vec<(String, OwnedValue)> {
         v.push(("pad".to_string(), OwnedValue::Str(s)));
     } else if let Some(s) = spec.get("rich").and_then(|x| x.as_u64()) {
         v.extend(rich_doc(s));
+    } else if let Some(b) = spec.get("big") {
+        // one value of exactly `len` bytes derived from a small seed: text, bytes, or a string leaf of a JSON object
+        let len = b["len"].as_u64().unwrap() as usize;
+        let mut x = b["seed"].as_u64().unwrap_or(1).wrapping_mul(0x9E3779B97F4A7C15) | 1;
+        let mut next = || {
+            x ^= x << 13;
+            x ^= x >> 7;
+            x ^= x << 17;
+            x
+        };
+        match b["kind"].as_str().unwrap() {
+            "bytes" => v.push(("y".to_string(), OwnedValue::Bytes((0..len).map(|_| next() as u8).collect()))),
+            k => {
+                let s: String = (0..len).map(|_| (b' ' + (next() % 95) as u8) as char).collect();
+                if k == "text" {
+                    v.push(("pad".to_string(), OwnedValue::Str(s)));
+                } else {
+                    v.push(("j".to_string(), OwnedValue::Object(vec![("k".to_string(), OwnedValue::Str(s))])));
+                }
+            }
+        }
     }
     v
 }
@@ -340,11 +375,16 @@ fn run_case(tracer: &Tracer, f: &Fields, case: &Value) {
     let mut rendered = vec![];
     let stored: Vec<Value> = f.schema.fields().map(|(_, e)| json!({"name":e.name(),"stored":e.is_stored()})).collect();
     let mut docs_per_seg = vec![];
+    let mut big = vec![];
     for seg in case["segs"].as_array().unwrap() {
         let specs = seg.as_array().unwrap();
         docs_per_seg.push(specs.len());
         for spec in specs {
             id += 1;
+            if let Some(b) = spec.get("big") {
+                let field = match b["kind"].as_str().unwrap() { "text" => "pad", "bytes" => "y", _ => "j" };
+                big.push(json!([id, field, b["len"]]));
+            }
             let fv = doc_of(spec, id);
             // the input, rendered before the document is built
             let mut m: BTreeMap<String, Vec<Value>> = BTreeMap::new();
@@ -362,7 +402,7 @@ fn run_case(tracer: &Tracer, f: &Fields, case: &Value) {
         }
         w.commit().expect("commit");
     }
-    tracer.emit(json!({"ev":"store","case":case["id"],"cfg":cfg,"schema":stored,"docs":rendered,"docs_per_seg":docs_per_seg}));
+    tracer.emit(json!({"ev":"store","case":case["id"],"cfg":cfg,"schema":stored,"docs":rendered,"docs_per_seg":docs_per_seg,"big":if big.is_empty() { Value::Null } else { json!(big) }}));
     let mut run = Run { tracer, f, index: index.clone(), cache: cfg["cache"].as_u64().unwrap_or(100) as usize,
         access: case["access"].as_str().unwrap_or("fwd").to_string(), rng: StdRng::seed_from_u64(case["seed"].as_u64().unwrap_or(1)) };
     run.observe("commit");
